@@ -372,6 +372,22 @@ struct RecB;
 struct Selfy;
 struct Gen<T>(PhantomData<T>);
 struct Skip;
+/// definitions that mention the COUNTING types (RecA, RecB, Selfy) in compact, bit-sequence and array position: an extra evaluation of a
+/// definition anywhere on those conversion paths shows up in the evaluation counters
+struct CompactRec;
+struct BitsRec;
+impl TypeInfo for CompactRec {
+    type Identity = Self;
+    fn type_info() -> Type {
+        Type::new(Path::new("CompactRec", "pool"), vec![], TypeDefCompact::new(meta_type::<RecA>()), vec![])
+    }
+}
+impl TypeInfo for BitsRec {
+    type Identity = Self;
+    fn type_info() -> Type {
+        Type::new(Path::new("BitsRec", "pool"), vec![], TypeDef::BitSequence(TypeDefBitSequence { bit_store_type: meta_type::<Selfy>(), bit_order_type: meta_type::<RecB>() }), vec![])
+    }
+}
 impl TypeInfo for RecA {
     type Identity = Self;
     fn type_info() -> Type {
@@ -437,6 +453,9 @@ impl TypeInfo for Blob {
 fn pool() -> Vec<(&'static str, MetaType)> {
     vec![
         ("Blob", meta_type::<Blob>()),
+        ("CompactRec", meta_type::<CompactRec>()),
+        ("BitsRec", meta_type::<BitsRec>()),
+        ("[Selfy;2]", meta_type::<[Selfy; 2]>()),
         ("(u8,u8,bool,u8)", meta_type::<(u8, u8, bool, u8)>()),
         ("u8", meta_type::<u8>()),
         ("Vec<u8>", meta_type::<Vec<u8>>()),
@@ -1009,7 +1028,7 @@ fn c18(st: &mut Stats, max: u32) -> Res {
     // Path::new / new_with_replace on arbitrary module paths: succeed exactly when every `::`-separated piece and the
     // ident (after replacement) is an identifier - otherwise they must refuse (panic), never drop or invent a segment
     std::panic::set_hook(Box::new(|_| {}));
-    let pieces = ["a", "::", ":", "", "r#b", "9"];
+    let pieces = ["a", "::", ":", "", "r#b", "9", " "];   // a space: `trim`-style "tolerance" must not creep in
     let mut mods: Vec<String> = vec![String::new()];
     let mut fr = vec![String::new()];
     for _ in 0..4 {
@@ -1027,7 +1046,7 @@ fn c18(st: &mut Stats, max: u32) -> Res {
     mods.sort();
     mods.dedup();
     for m in &mods {
-        for ident in ["Z", "", "r#r#q"] {
+        for ident in ["Z", "", "r#r#q", "a::Z", " Z"] {   // an ident is ONE segment: it is never split, trimmed or otherwise interpreted
             // tables incl. chains (the replacement of an earlier entry is the search key of a later one), swaps and duplicate keys:
             // every segment is looked up ONCE, the first matching entry wins, a replacement is never searched again
             for table in [&[][..], &[("a", "X"), ("", "root")][..], &[("9", "nine")][..], &[("a", "Z"), ("Z", "a")][..], &[("a", "r#b"), ("r#b", "9")][..],
@@ -1064,6 +1083,13 @@ fn c18(st: &mut Stats, max: u32) -> Res {
         }
     }
     let _ = std::panic::take_hook();
+    // display of long paths: the segments joined by `::`, whatever their number and length (no width, precision or truncation)
+    for (n, seglen) in [(1usize, 1usize), (1, 200), (12, 7), (40, 3), (3, 90)] {
+        st.cases += 1;
+        let segs: Vec<&'static str> = (0..n).map(|k| leak(format!("s{}{}", k, "x".repeat(seglen)))).collect();
+        let port = Path::from_segments(segs.clone()).map_err(|e| format!("{:?}", e))?.into_portable(&mut Registry::new());
+        ensure!(port.to_string() == segs.join("::"), "display of a path of {} segments of ~{} characters is {:?}", n, seglen, port.to_string());
+    }
     // segment lists: first offending position, order, ident, namespace, display
     let segs = ["a", "r#b", "_", "1", "", "r#", "r#r#c", "Zz9"];
     for i in 0..segs.len() {
